@@ -92,6 +92,7 @@ import random
 
 from vf.core.ctx import CaseTimeout as G_TIMEOUT, exc_label
 from vf.gen import bags as G
+from vf.mon import siblings as S
 
 PROP = "C48"
 RULE = ("cases = (forced last operation, case seed); the seed determines element kind (int/str/(int,int)/(str,int,int)/dict), "
@@ -1414,6 +1415,11 @@ def _run_repartition_grid(case, ctx):
         # boundaries int(i * 15 / 13) stop short of 15 and the closing guard appends one more.)
         ctx.count("repartition_grid_other_partition_count")
     ctx.sample = {"from": N, "to": m, "elements": len(L)}
+    # sibling facet: the same bag repartitioned to another count holds the same elements in other partitions; the two
+    # must not share keys (values are compared partition by partition)
+    m2 = m + 1 if (m == 1 or (N * 31 + m) % 2) else m - 1
+    S.check(ctx, "repartition", "npartitions", r, (lambda: b.repartition(npartitions=m2)),
+            compute=S.compute_blocks, compute_many=S.compute_many_blocks, describe={"npartitions": m2})
 
 
 def run_case(case, ctx):
@@ -1480,6 +1486,8 @@ def run_case(case, ctx):
     ctx.sample = {"pipeline": desc, "kind": kind, "lens": [len(p) for p in parts], "layout": layout["style"], "scheduler": sched,
                   "input": L[:8], "result": G.canon(val)[:160] if tag == "ok" else repr(val)[:160],
                   "compare": fin.mode}
+    if tag == "ok":
+        _siblings(ctx, case, forced, steps, states, bag, val)
     if sym is None:
         return
 
@@ -1488,6 +1496,45 @@ def run_case(case, ctx):
               "expected": G.canon(fin.value)[:600] if fin.value is not None else fin.mode,
               "got": (G.canon(val)[:600] if tag == "ok" else "%s: %s" % (type(val).__name__, val))}
     _diagnose(ctx, steps, states, bag, parts, layout, sym, sched, detail)
+
+
+def _siblings(ctx, case, forced, steps, states, bag, val):
+    """Sibling facet: the same prefix followed by the same LAST operation with other arguments (planned again from a
+    private stream: another function / key / k / split_every / initial / other bag ...) must not share keys with the
+    case's result, and both must keep their stand-alone value when computed in one graph.  Eager results (take without
+    compute=False) are not collections: nothing to observe."""
+    import dask
+
+    srng = S.rng_for(case)
+    step2 = None
+    for _ in range(6):
+        try:
+            cand = PLANNERS[forced](srng, states[-1])
+        except (NotApplicable, RefReject):
+            continue
+        if cand.desc != steps[-1].desc:
+            step2 = cand
+            break
+    if step2 is None:
+        ctx.count("siblings_not_built")
+        return
+    try:
+        with dask.config.set(scheduler="sync"):
+            pre = bag
+            for step, st in zip(steps[:-1], states):
+                pre = step.dask(pre, st)
+            a = steps[-1].dask(pre, states[-1])
+    except G_TIMEOUT:
+        raise
+    except Exception:  # noqa: BLE001
+        ctx.count("siblings_not_built")
+        return
+
+    def build():
+        with dask.config.set(scheduler="sync"):
+            return step2.dask(pre, states[-1])
+
+    S.check(ctx, forced, "arguments", a, build, va=val, describe={"last_step": step2.desc})
 
 
 STATS = ("count", "sum", "mean", "std", "var", "min", "max", "any", "all")
